@@ -34,6 +34,7 @@ class SymMgr:
     def __init__(self, N, K, L, names=None, with_cache=True, with_refs=True,
                  tag='0', cache_model='array', cache_entries=2):
         self.N, self.K, self.L = N, K, L
+        self.N0 = N               # pre-state bound (N may grow when a contract extends the state)
         self.maxid = N + K
         self.ids = list(range(1, N + 1))
         self.ids2 = list(range(1, N + K + 1))
@@ -277,7 +278,7 @@ class SymMgr:
     # ---- model -> concrete case
     def extract(self, model, which='pre', extra_ids=0):
         st = self.st0 if which == 'pre' else self.st
-        maxid = self.N if which == 'pre' else self.maxid
+        maxid = self.N0 if which == 'pre' else self.maxid
 
         def ev(t):
             return model.eval(t, model_completion=True)
